@@ -277,6 +277,7 @@ func init() {
 		}
 		// ---- sections ----
 		c07Sections(c)
+		c07CompositeComplete(c)
 		// ---- codec-agreement ----
 		c07Codec(c)
 	})
@@ -460,4 +461,55 @@ func c07Codec(c *Ctx) {
 	if n < 6 {
 		c.und("codec-agreement", "core accessors", "", fmt.Sprintf("only %d buckets with both an encoder and a decoder recognised", n))
 	}
+}
+
+// c07CompositeComplete: accessors in package core that assemble a composite (struct literal) from several reads return it
+// with every field set on every success path — a header-only shortcut makes the full-block accessor disagree with the
+// per-section accessors for the same stored block.
+func c07CompositeComplete(c *Ctx) {
+	p := c.P
+	n := 0
+	for _, fn := range p.sortedFuncs() {
+		if pkgRelOf(fn) != "core" || fn.Origin() != nil || fn.Parent() != nil || !strings.HasSuffix(p.File(fnPos(fn)), "/accessors.go") && !strings.HasPrefix(fn.Name(), "zzVerifFixtureC07Composite") {
+			continue
+		}
+		if !strings.HasPrefix(fn.Name(), "Get") && !strings.HasPrefix(fn.Name(), "zzVerifFixtureC07Composite") {
+			continue
+		}
+		for _, ret := range returnsOf(fn) {
+			if len(ret.Results) < 2 || !isNilConst(ret.Results[len(ret.Results)-1]) {
+				continue
+			}
+			al, ok := ret.Results[0].(*ssa.Alloc)
+			if !ok || al.Comment != "complit" {
+				continue
+			}
+			st, ok := al.Type().Underlying().(*types.Pointer).Elem().Underlying().(*types.Struct)
+			if !ok || st.NumFields() < 2 {
+				continue
+			}
+			n++
+			set := map[string]bool{}
+			for _, r := range *al.Referrers() {
+				if fa, isFa := r.(*ssa.FieldAddr); isFa {
+					for _, r2 := range *fa.Referrers() {
+						if s, isSt := r2.(*ssa.Store); isSt && s.Addr == ssa.Value(fa) && dominatesInstr(s, ret.Ret) {
+							set[fieldName(fa.X.Type(), fa.Field)] = true
+						}
+					}
+				}
+			}
+			var missing []string
+			for i := 0; i < st.NumFields(); i++ {
+				if !set[st.Field(i).Name()] {
+					missing = append(missing, st.Field(i).Name())
+				}
+			}
+			c.check(len(missing) == 0, "composite-complete", fmt.Sprintf("%s returns %s", qname(fn), typeShort(al.Type())), p.Pos(posOf(ret.Ret, fn)), "every field of the assembled value is set", "a success path returns the composite without "+strings.Join(missing, ", ")+": the full accessor and the per-section accessors disagree about the same stored block")
+		}
+	}
+	if n < 1 {
+		c.und("composite-complete", "core accessors", "", "no composite-assembling accessor found")
+	}
+	c.needFixture("composite-complete")
 }
